@@ -26,6 +26,17 @@ MODEL = ("reference model: ~300 lines of exact polynomial arithmetic in global "
          "coordinates over boost cpp_rational (harness/model.h), cross-checked "
          "against a value-based recursion at run time")
 
+HIGH_RULE = ("An extreme-order driver (drv_high) runs every kind of operation "
+             "once per case for the orders 11, 12, 15, 16, 17, 20, 24, 31, 32, "
+             "33, 40, 48, 64 (evaluation, Dx/X, + - * with an order-3 partner, "
+             "scalar, cross-order assignment, in-place chain, linear and "
+             "bilinear forms) against the exact model. ")
+
+
+def high_runs(tier, seed, scalars=("Q", "d"), flavour="plain"):
+    return [RunSpec("high", sc, flavour, q(tier, 260, 26000)) for sc in scalars]
+
+
 # ----------------------------------------------------------------------- C01
 
 
@@ -66,7 +77,8 @@ reg(Spec(
               "pattern:left-over-full", "pattern:right-over-full",
               "pattern:random-mult", "pattern:short", "pattern:long-mixed",
               "route:0", "route:1", "route:2", "route:3",
-              "obs:partition-of-unity", "obs:continuity"] +
+              "obs:partition-of-unity", "obs:continuity",
+              "supplied-grid:negative-zero"] +
              ["order:%d" % p for p in range(7)],
     assumptions=[DYADIC, MODEL, "orders 0..6 (0..10 in the thorough run; the "
                  "examples use order 10); the "
@@ -84,12 +96,12 @@ reg(Spec(
 def c02_runs(tier, seed):
     n = q(tier, 16000, 1200000)
     runs = [RunSpec("eval", "Q", "plain", n), RunSpec("eval", "d", "plain", n),
+            RunSpec("eval", "ld", "plain", n), RunSpec("eval", "f", "plain", n),
             RunSpec("pool", "Q", "plain", q(tier, 160, 20000)),
-            RunSpec("pool", "d", "plain", q(tier, 320, 40000))]
+            RunSpec("pool", "d", "plain", q(tier, 320, 40000))] + high_runs(
+                tier, seed)
     if tier == "thorough":
-        runs += [RunSpec("eval", "f", "plain", n // 2),
-                 RunSpec("eval", "ld", "plain", n // 2),
-                 RunSpec("eval", "d", "nochk", n // 2),
+        runs += [RunSpec("eval", "d", "nochk", n // 2),
                  RunSpec("eval", "Q", "nochk", n // 8, defines=("MAXO=10",)),
                  RunSpec("eval", "d", "nochk", n // 4, defines=("MAXO=10",))]
     return runs
@@ -112,7 +124,7 @@ reg(Spec(
           "at every grid point and midpoint after every step of its "
           "histories, so evaluation is also observed after assignments "
           "(same and lower order), moves and in-place updates of objects "
-          "that were evaluated before. Non-trivial: "
+          "that were evaluated before. " + HIGH_RULE + "Non-trivial: "
           "non-zero spline with at least one inside evaluation; distinct by "
           "(order, window, grid, coefficients)."),
     required=["window:whole-grid", "window:one-interval",
@@ -121,7 +133,8 @@ reg(Spec(
               "x:just-outside-left", "x:just-outside-right",
               "x:just-inside-left", "x:just-inside-right", "x:far-outside",
               "frontback:empty-throws", "frontback:ends-checked",
-              "c02:evaluations-in-history"] +
+              "c02:evaluations-in-history", "checked:evaluate", "order:64",
+              "grid:large"] +
              ["order:%d" % p for p in range(7)],
     assumptions=[DYADIC, MODEL, "NaN abscissae are not judged; for a "
                  "point-like support front()/back() may return the point or "
@@ -137,6 +150,7 @@ reg(Spec(
 def c04_runs(tier, seed):
     n = q(tier, 60000, 3000000)
     runs = [RunSpec("ops", "Q", "plain", n), RunSpec("ops", "d", "plain", n)]
+    runs += high_runs(tier, seed)
     if tier == "thorough":
         runs += [RunSpec("ops", "f", "plain", n // 3),
                  RunSpec("ops", "ld", "plain", n // 3),
@@ -156,7 +170,8 @@ reg(Spec(
           "point-like / last interval / random sub-window, general "
           "coefficients. Oracle: denote(op*s) == model derivative / x^n * "
           "polynomial on every interval of the whole grid, result window == "
-          "operand window, identity result == operand. Non-trivial: non-zero "
+          "operand window, identity result == operand. " + HIGH_RULE +
+          "Non-trivial: non-zero "
           "operand; distinct by (operator, order, window, grid, "
           "coefficients)."),
     required=["op:Dx%d" % i for i in range(9)] +
@@ -264,7 +279,8 @@ reg(Spec(
 
 
 def c06_runs(tier, seed):
-    return expr_runs(tier, seed) + expr_deep(tier, seed) + [
+    return expr_runs(tier, seed) + expr_deep(tier, seed) + high_runs(
+        tier, seed) + [
         RunSpec("pool", "Q", "plain", q(tier, 160, 10000)),
         RunSpec("pool", "d", "plain", q(tier, 320, 20000))]
 
@@ -282,7 +298,8 @@ reg(Spec(
          "factor splines) applied to the very same spline object. The pool "
          "machine (see C03) adds ScalarProduct and BilinearForm{X,Dx} over its "
          "objects in the middle of histories (moved-from, interval-free and "
-         "point-like objects included). Non-trivial: exact value non-zero.",
+         "point-like objects included). " + HIGH_RULE + "Non-trivial: exact "
+         "value non-zero.",
     required=["bilinear", "bilinear:metamorphic",
               "bilinear:same-type-different-state", "forms:scalar-product",
               "forms:bilinear-X-Dx", "place:forms:A_EMPTY",
@@ -303,7 +320,8 @@ reg(Spec(
 
 
 def c07_runs(tier, seed):
-    return expr_runs(tier, seed) + expr_deep(tier, seed) + [
+    return expr_runs(tier, seed) + expr_deep(tier, seed) + high_runs(
+        tier, seed) + [
         RunSpec("pool", "Q", "plain", q(tier, 160, 10000)),
         RunSpec("pool", "d", "plain", q(tier, 320, 20000))]
 
@@ -315,7 +333,7 @@ reg(Spec(
          "of the exact integral of ModelExpr(E)(a), 0 for interval-free a, "
          "== LinearForm{}(E*a) through the library; and for every bilinear "
          "case BilinearForm{E1,E2}(a,b) == LinearForm{}((E1*a)*(E2*b)) "
-         "exactly (Q). Non-trivial: exact value non-zero.",
+         "exactly (Q). " + HIGH_RULE + "Non-trivial: exact value non-zero.",
     required=["linear", "linear:interval-free", "linear:outsize-parity:odd",
               "linear:outsize-parity:even", "linear:vs-apply",
               "bilinear:metamorphic", "forms:linear-X2",
@@ -330,7 +348,7 @@ reg(Spec(
 # ----------------------------------------------------------------------- C08
 DIFFS = ["twin", "moved-first", "moved-last", "moved-inner", "extra-left",
          "extra-right", "extra-inside", "prefix", "suffix",
-         "equal-where-supports-meet"]
+         "equal-where-supports-meet", "two-moved-sum-preserved"]
 ENTRIES = ["add", "sub", "mul", "add-assign", "sub-assign",
            "linear-combination", "bilinear-form", "bilinear-form-operators",
            "factor-apply", "factor-linear-form", "factor-bilinear-form",
@@ -350,17 +368,23 @@ def c08_runs(tier, seed):
 reg(Spec(
     "C08", "operations across different grids are refused, never computed",
     c08_runs,
-    rule=("case k -> grid difference k mod 10 (equal twin as the control; "
-          "first / last / inner point moved; extra point left / right / "
-          "inside; prefix; suffix; grids that agree on the whole hull of both "
-          "supports and differ only outside it), entry point (k div 10) mod 15 "
+    rule=("case k -> grid difference k mod 11 (equal twin as the control, "
+          "zero points spelt -0.0 in one of them; first / last / inner point "
+          "moved; extra point left / right / inside; prefix; suffix; grids "
+          "that agree on the whole hull of both supports and differ only "
+          "outside it; two neighbouring points moved towards each other so "
+          "that size and sum of the points are preserved), entry point "
+          "(k div 11) mod 15 "
           "(+ - * += -= linearCombination with the odd one out at a random "
           "position, ScalarProduct, BilinearForm{X,Dx}, integrate<3> "
           "(floating types), SplineOperator{v}*s, LinearForm{Dx*V}(s), "
           "BilinearForm{X+V}(a,a2), Support union / intersection), orders "
           "0..2 x 0..2, 12 relative placements of the two windows including "
           "interval-free arguments; every 16th case: generator with a supplied "
-          "grid. Oracle: logically different grids => BSplineException with "
+          "grid; every 16th case: a long-lived SplineOperator whose previous "
+          "operand lived on a separate-but-equal grid instance that has been "
+          "destroyed since is applied (operator*, LinearForm, BilinearForm) to "
+          "a different grid of the same size. Oracle: logically different grids => BSplineException with "
           "DIFFERING_GRIDS (generator: any code), no result, both arguments "
           "bit-identical and on the same grid objects afterwards; for spline "
           "factors only when the operator is applied to at least one interval; "
@@ -370,7 +394,8 @@ reg(Spec(
           "distinct by full input."),
     required=["diff:" + d for d in DIFFS] + ["entry:" + e for e in ENTRIES] +
              ["refused", "twin-agrees", "generator-refused",
-              "c08:refused-in-history"],
+              "c08:refused-in-history", "persistent-operator:refused",
+              "twin:negative-zero"],
     assumptions=["for a bilinear form over operands without a common interval "
                  "the factor is never consulted; such calls are counted as "
                  "not judged", "checkOverlap and assignment across grids are "
@@ -716,6 +741,7 @@ def san_runs(tier, seed, fl, scale=1.0, with_expr=True, with_examples=True):
         RunSpec("pool", "Q", fl, n(192, 3000)),
         RunSpec("ops", "d", fl, n(60000, 600000)),
         RunSpec("arith", "d", fl, n(3360, 100000)),
+        RunSpec("high", "d", fl, n(130, 2600)),
         RunSpec("grids", "d", fl, n(80000, 1000000)),
         RunSpec("access", "d", fl, access_cases(q(tier, 7, 10)),
                 params={"maxn": q(tier, 7, 10)}),
@@ -966,6 +992,8 @@ def c19_runs(tier, seed):
         RunSpec("validate", "Q", "plain", q(tier, 1500, 60000),
                 params={"gridblocks": q(tier, 300, 6000), "gridpercase": 64}),
         RunSpec("interp", "Q", "plain", q(tier, 3000, 100000)),
+        RunSpec("arith", "Q", "plain", q(tier, 1680, 100000)),
+        RunSpec("high", "Q", "plain", q(tier, 130, 13000)),
     ]
     runs += expr_runs(tier, seed, scalars=("Q",))
     return runs
@@ -1082,6 +1110,7 @@ def c03_runs(tier, seed):
     runs = pool_runs(tier, seed)
     runs += [RunSpec("arith", "Q", "plain", q(tier, 3360, 400000)),
              RunSpec("arith", "d", "plain", q(tier, 6720, 800000))]
+    runs += high_runs(tier, seed)
     if tier == "thorough":
         runs += [RunSpec("pool", "f", "plain", 20000),
                  RunSpec("pool", "ld", "plain", 20000),
@@ -1097,7 +1126,8 @@ reg(Spec(
          "with max(order) in 5..8 (56 pairs; + - * += -= c*a a/c -a, "
          "cross-order assignment over an existing value, linearCombination) "
          "in the 12 placements, one case in eight on a grid of 65..130 "
-         "points. C03 oracle: denote(result) == model_op(shadows of the "
+         "points. " + HIGH_RULE + "C03 oracle: denote(result) == "
+         "model_op(shadows of the "
          "operands) as polynomials on every interval of the whole grid "
          "(equality for Q, C16 bound for floating types); the shadow of an "
          "in-place target is updated by the model so drift over a history is "
